@@ -910,6 +910,120 @@ example :
     c.blocks.map (·.dyn.out) = [.int 0, .str "saved"] ∧ c.store.get? "<Input 'dst'>" = some (.val (.str "saved")) := by
   decide +kernel
 
+/-! ### nested events: chained transitions requested by entry actions
+
+`AddonPersistence.event` is the outermost `event()` of a persistent block, so the `self.event(…)` with which an FSM
+entry action requests a chained transition re-enters it in the MIDDLE of the outer transition (finding
+C06-nested-event-saves-intermediate-state: the unrepaired wrapper saved there).  `Circ.eventN` / `Circ.fireN` - what
+the driver executes for every event and timer firing - run every wrapper call the event contains (`blockMids`: the
+block's state when each nested call returned) and log the storage after every write: the crash points inside an
+event. -/
+
+/-- `nested_event_never_saves`: a call of the wrapper made while another `event()` of the block is active writes
+    nothing, whatever state the block is in and however many such calls an event contains; the circuit and result
+    of an event with all its nested calls are those of `Circ.event`; and a save happens only when the OUTERMOST
+    `event()` of the block returns: an event writes at most once, the write is the last thing it does (the storage
+    it leaves is the final one) and the event was handled without error - an event that raises writes nothing -/
+theorem nested_event_never_saves (c : Circ) (cal : Val → Option Bool) (i : Nat) (ev : Ev) :
+    (∀ (s : Storage) (b : Blk), wrapperSave true s b = (s, false) ∧ syncSaveN true s b = s) ∧
+    (∀ (s : Storage) (b : Blk) (mids : List Dyn) (log : List Storage), nestedSaves b mids s log = (s, log)) ∧
+    (c.eventN cal i ev).map (fun x => (x.1, x.2.1)) = c.event cal i ev ∧
+    (c.fireN cal i).map (fun x => (x.1, x.2.1)) = c.fire cal i ∧
+    (∀ c' r ws, c.eventN cal i ev = some (c', r, ws) →
+      (ws = [] ∧ c'.store = c.store) ∨ (∃ v, r = .ret v ∧ ws = [c'.store])) :=
+  ⟨fun s b => ⟨wrapperSave_nested s b, rfl⟩, fun s b mids log => nestedSaves_eq b mids s log,
+   eventN_is_event c cal i ev, fireN_is_fire c cal i, fun _ _ _ h => eventN_writes h⟩
+
+/-- `storage_never_holds_intermediate_state`: for every circuit, initial storage and history (events, chained
+    transitions, failing entry actions, timer firings), at EVERY write made while the next event is handled the
+    storage holds, for every block with `persistent and sync_state` (the block handling the event included), the
+    block's state after that completed event - never a state the block only passes through - and a write is made
+    only by an event that was handled without error; an event that fails leaves the storage as it was after the
+    last completed event -/
+theorem storage_never_holds_intermediate_state (env : Time → Val → Option Bool) (c0 : Circ) (h0 : Fresh c0)
+    (now : Time) (ops : List Op) (cal : Val → Option Bool) (i : Nat) (ev : Ev) (c' : Circ) (r : Res)
+    (ws : List Storage)
+    (h : (run env (c0.start (env now) now .ok) ops).eventN cal i ev = some (c', r, ws)) :
+    (∀ s ∈ ws, (∃ v, r = .ret v) ∧
+      ((c'.phase = .running ∨ c'.phase = .aborted) →
+        ∀ b ∈ c'.blocks, b.persistent = true → b.sync = true → s.get? b.key = getState b.kind b.dyn)) ∧
+    ((∀ v, r ≠ .ret v) → ws = [] ∧ c'.store = (run env (c0.start (env now) now .ok) ops).store) := by
+  have hi := inv_run env ops (h0.inv (env now) now .ok)
+  generalize run env (c0.start (env now) now .ok) ops = c at hi h
+  have hi' : Inv c' := inv_event hi (eventN_event h)
+  rcases eventN_writes h with ⟨rfl, hs⟩ | ⟨v, rfl, rfl⟩
+  · exact ⟨fun s hs => by simp at hs, fun _ => ⟨rfl, hs⟩⟩
+  · refine ⟨fun s hs => ?_, fun hne => absurd rfl (hne v)⟩
+    simp only [List.mem_singleton] at hs
+    subst hs
+    exact ⟨⟨v, rfl⟩, fun hg => hi'.synced (hg.elim Or.inl (fun h => Or.inr (Or.inl h)))⟩
+
+/-- the same for a timer firing -/
+theorem storage_never_holds_intermediate_state_fire (env : Time → Val → Option Bool) (c0 : Circ) (h0 : Fresh c0)
+    (now : Time) (ops : List Op) (cal : Val → Option Bool) (i : Nat) (c' : Circ) (r : Res) (ws : List Storage)
+    (h : (run env (c0.start (env now) now .ok) ops).fireN cal i = some (c', r, ws)) :
+    ∀ s ∈ ws, (∃ v, r = .ret v) ∧ s = c'.store ∧
+      ((c'.phase = .running ∨ c'.phase = .aborted) →
+        ∀ b ∈ c'.blocks, b.persistent = true → b.sync = true → s.get? b.key = getState b.kind b.dyn) := by
+  have hi := inv_run env ops (h0.inv (env now) now .ok)
+  generalize run env (c0.start (env now) now .ok) ops = c at hi h
+  have hf : c.fire cal i = some (c', r) := by rw [← fireN_is_fire, h]; rfl
+  have hi' : Inv c' := inv_fire hi hf
+  unfold Circ.fireN at h
+  split at h
+  · simp at h
+  · split at h
+    · simp at h
+    · split at h
+      · simp at h
+      · split at h
+        · simp at h
+        · rcases eventN_writes h with ⟨rfl, _⟩ | ⟨v, rfl, rfl⟩
+          · intro s hs; simp at hs
+          · intro s hs
+            simp only [List.mem_singleton] at hs
+            subst hs
+            exact ⟨⟨v, rfl⟩, rfl, fun hg => hi'.synced (hg.elim Or.inl (fun h => Or.inr (Or.inl h)))⟩
+
+/-- the FSM of the finding: `go: A → X`, `next: X → Y`, `enter_X` requests `next` with an event to its own block;
+    `yFails`: `enter_Y` raises -/
+def exChainCls (yFails : Bool) : FsmCls :=
+  { states := ["A", "X", "Y"], trans := [("go", some "A", "X"), ("next", some "X", "Y"), ("back", none, "A")],
+    timers := [("Y", some 1000000, .ev "back")], conds := [],
+    enters := [("X", .chain "next")] ++ (if yFails then [("Y", .raise)] else []),
+    outMode := .state, initState := "A", initSdata := [] }
+
+def exChain (yFails : Bool) : Circ :=
+  { blocks := [{ key := "<Chain 'f'>", kind := .fsm (exChainCls yFails), persistent := true, sync := true,
+                 expiration := none }],
+    store := [] }
+
+/-- the hypotheses are satisfiable, and the statement is not empty: the chained transition `A → X → Y` contains one
+    nested call of the wrapper, made in the intermediate state `X`; the event writes once, `Y` with its timer -/
+example :
+    Fresh (exChain false) ∧
+    (blockMids (.fsm (exChainCls false)) 5 (((exChain false).start (fun _ => none) 0 .ok).blocks.map (·.dyn)).head!
+      (.named "go" none)).map (·.fstate) = ["X"] ∧
+    (((exChain false).start (fun _ => none) 0 .ok).eventN (fun _ => none) 0 (.named "go" none)).map
+      (fun x => (x.2.1, x.2.2.map (·.get? "<Chain 'f'>"), x.1.blocks.map (·.dyn.entered)))
+      = some (.ret (.bool true), [some (.fsm "Y" (some 1000000) [])], [["A", "X", "Y"]]) := by
+  refine ⟨⟨⟨rfl, by decide +kernel, by decide +kernel, ?_, ?_, ?_⟩, ?_⟩, by decide +kernel, by decide +kernel⟩
+  all_goals
+    intro b hb
+    simp only [exChain, List.mem_cons, List.not_mem_nil, or_false] at hb
+    subst hb
+  · show (exChainCls false).valid = true; decide +kernel
+  · rfl
+  · exact ⟨rfl, rfl⟩
+  · rfl
+
+/-- …and when `enter_Y` fails nothing is written: the storage keeps `A`, the state after the last completed event -/
+example :
+    (((exChain true).start (fun _ => none) 0 .ok).eventN (fun _ => none) 0 (.named "go" none)).map
+      (fun x => (x.2.1, x.2.2.length, x.1.store.get? "<Chain 'f'>", x.1.blocks.map (·.dyn.fstate)))
+      = some (.handlerError, 0, some (.fsm "A" none []), ["Y"]) := by
+  decide +kernel
+
 end Edzed.Persist
 
 /-! ### the translation tie: the decision of `init_from_persistent_data` -/
